@@ -34,8 +34,8 @@ type C18Case struct {
 	Runes  []rune   `json:"runes,omitempty"`
 	Tables []string `json:"tables,omitempty"`
 	K      int      `json:"k,omitempty"`
-	Base int    `json:"base"` // first Example seed
-	N    int    `json:"n"`    // number of draws
+	Base   int      `json:"base"` // first Example seed
+	N      int      `json:"n"`    // number of draws
 	// fresh: the program under test has pinned Go's global math/rand source (rand.Seed(constant) in a TestMain or
 	// a test, GODEBUG=randautoseed=0 in the child processes): the library's choice of seeds must not depend on it
 	Pinned bool `json:"pinned,omitempty"`
